@@ -21,7 +21,11 @@ instance ("A") per step.  After every step
     object stored in the class trait; half of the fresh instances get
     on_trait_change / observe recorders attached before the first read;
   * the pool and the classes are inspected again -- effects of what the fresh
-    instances did (reported under the op label "fresh-instance").
+    instances did (reported under the op label "fresh-instance");
+  * every pool instance is asked for its metadata-filtered trait_names() /
+    traits() (must be the class's names plus its own added traits), the
+    classes are inspected once more ("filtered-inspection"), and now and then
+    a subclass is defined on the spot: it must inherit the original names.
 
 Objects are keyed by serial numbers (the id -> serial map only ever holds
 objects the history keeps alive).  Wildcard-name resolution is kept out of the
@@ -52,7 +56,9 @@ META = {
              "on_trait_change/observe recorders attached), 15 (quick) / 15-25 (thorough) steps drawn from "
              "{read, mutate own container, assign, del, on_trait_change add/remove, observe add/remove, "
              "add_trait (new name / shadowing a declared name), remove_trait, new instance, drop "
-             "instance, read-all}, one evaluation per inspected sibling / fresh instance / class after "
+             "instance, read-all, metadata-filtered query / state / copy (traits(**md), trait_names(**md), "
+             "trait_get(**md), __getstate__, copy, deepcopy, clone_traits, copyable_trait_names, "
+             "editable_traits, visible_traits)}, one evaluation per inspected sibling / fresh instance / class after "
              "every step.  distinct_nontrivial counts distinct (op, default kind of the target, value "
              "materialised before?, class of the target, static variant, recorders attached to the "
              "target, mechanisms that fired) signatures of steps."),
@@ -65,7 +71,9 @@ META = {
                   "default_factory_runs": 100000, "own_mutations": 3000,
                   "handler_events_on_target": 4000, "liveness_events": 100000, "add_trait_ops": 1500,
                   "remove_trait_ops": 300, "registrations": 100000, "instances_created": 800,
-                  "sharing_comparisons": 800000},
+                  "sharing_comparisons": 800000, "query_ops": 1500,
+                  "query_ops_on_instance_with_added_traits": 300, "filtered_inspections": 40000,
+                  "subclass_probes": 6000},
         "thorough": {"evaluations": 2000000, "steps": 300000, "sibling_inspections": 600000,
                      "fresh_instances": 800000, "class_inspections": 800000, "first_reads": 16000000,
                      "pool_first_reads": 1000000, "first_reads_static": 10000000,
@@ -74,7 +82,9 @@ META = {
                      "own_mutations": 60000, "handler_events_on_target": 80000,
                      "liveness_events": 2000000, "add_trait_ops": 30000, "remove_trait_ops": 6000,
                      "registrations": 2000000, "instances_created": 16000,
-                     "sharing_comparisons": 16000000},
+                     "sharing_comparisons": 16000000, "query_ops": 30000,
+                     "query_ops_on_instance_with_added_traits": 6000, "filtered_inspections": 800000,
+                     "subclass_probes": 120000},
     },
     "assumptions": [
         "the declared default of every trait of the harness classes is the literal written in SPEC "
@@ -515,6 +525,28 @@ def mutable_parts(v):
     return [v]
 
 
+def _is_none(v):
+    return v is None
+
+
+# Metadata-filtered queries and the copy / state operations built on them.  All are
+# reads: none may change what the class or another instance reports.
+FILTER = {"type": "trait"}
+QUERIES = {
+    "traits-filtered": lambda o: o.traits(**FILTER),
+    "trait_names-filtered": lambda o: o.trait_names(transient=_is_none),
+    "trait_get-filtered": lambda o: o.trait_get(**FILTER),
+    "getstate": lambda o: o.__getstate__(),
+    "copy": lambda o: copy.copy(o),
+    "deepcopy": lambda o: copy.deepcopy(o),
+    "clone_traits": lambda o: o.clone_traits(),
+    "copyable_trait_names": lambda o: o.copyable_trait_names(),
+    "editable_traits": lambda o: o.editable_traits(),
+    "visible_traits": lambda o: o.visible_traits(),
+}
+QUERY_NAMES = sorted(QUERIES)
+
+
 class Rec:
     __slots__ = ("serial", "obj", "cname", "cspec", "dflt", "model", "extras", "regs", "snap")
 
@@ -541,6 +573,8 @@ class History:
         self.prev_fresh = {}
         self.ctraits = {}
         self.tnames = {}
+        self.tnames_f = {}
+        self.ctn0 = {}
         self.class_traits0 = {}
         self.vars0 = {}
         self.cdv0 = {}
@@ -850,6 +884,7 @@ class History:
             if baseline:
                 self.ctraits[cname] = {n: o.trait(n) for n in NAMES + list(EVENT_NAMES)}
                 self.tnames[cname] = sorted(o.trait_names())
+                self.tnames_f[cname] = sorted(o.trait_names(**FILTER))
             else:
                 for n in NAMES + list(EVENT_NAMES):
                     if o.trait(n) is not self.ctraits[cname][n]:
@@ -860,6 +895,11 @@ class History:
                     self.fail("fresh/trait-names-changed/%s" % self.op,
                               "a fresh %s() has trait_names() differing by %r"
                               % (cname, sorted(set(tn) ^ set(self.tnames[cname]))))
+                tnf = sorted(o.trait_names(**FILTER))
+                if tnf != self.tnames_f[cname] or sorted(o.traits(**FILTER)) != self.tnames_f[cname]:
+                    self.fail("fresh/trait-names-changed/%s" % self.op,
+                              "a fresh %s() has trait_names(type='trait') differing by %r"
+                              % (cname, sorted(set(tnf) ^ set(self.tnames_f[cname]))))
                 for n in EXTRA_PROBE:
                     if o.trait(n) is not None:
                         self.fail("fresh/instance-trait-leaked/%s" % self.op,
@@ -946,7 +986,44 @@ class History:
             self.inspect_other(r)
         for cname in self.family:
             self.class_check(cname)
+        # metadata-filtered views of every pool instance: the class's names plus the
+        # instance's own added traits, whatever any other instance did or asked
+        self.op = "filtered-inspection"
+        for r in self.pool:
+            want = sorted(set(self.tnames_f[r.cname]) | set(n for n in r.extras if n not in BASE_SPEC)) \
+                if r.cname in self.tnames_f else None
+            got = sorted(r.obj.trait_names(**FILTER))
+            got2 = sorted(r.obj.traits(**FILTER))
+            if want is None:
+                continue
+            if got != want or got2 != want:
+                self.fail("isolation/trait-names-changed/filtered-inspection",
+                          "instance #%d: trait_names(type='trait') differs from class names + own "
+                          "instance traits by %r" % (r.serial, sorted(set(got + got2) ^ set(want))),
+                          sibling=r.serial)
+            self.ctx.ev()
+            self.ctx.count("filtered_inspections")
+        for cname in self.family:
+            self.class_check(cname)
+        # a subclass defined now inherits exactly the classes' original traits
+        if step_op in ("query", "add_trait", "remove_trait") or self.rng.random() < 0.2:
+            self.op = step_op
+            self.subclass_probe(self.rng.choice(self.family))
         self.op = step_op
+
+    def subclass_probe(self, cname):
+        base = self.classes[cname]
+        with warnings.catch_warnings():
+            warnings.simplefilter("ignore")
+            probe = type(base)("Probe" + cname, (base,), {})
+        names = (sorted(probe.class_trait_names()), sorted(probe.class_trait_names(**FILTER)),
+                 sorted(probe.class_traits(**FILTER)))
+        if names != self.ctn0[cname]:
+            diff = sorted(set(sum(names, [])) ^ set(sum(self.ctn0[cname], [])))
+            self.fail("class/subclass-traits-changed/%s" % self.op,
+                      "a subclass of %s defined now has class traits differing by %r" % (cname, diff))
+        self.ctx.ev()
+        self.ctx.count("subclass_probes")
 
     # -- classes ---------------------------------------------------------------------
     def class_check(self, cname, baseline=False):
@@ -958,7 +1035,10 @@ class History:
         cen = {n: ncount(t) for n, t in self.ctraits[cname].items()}
         raw = getattr(cls, "__class_traits__", None)
         ckeys = sorted(raw) if isinstance(raw, dict) else None
+        ctn = (sorted(cls.class_trait_names()), sorted(cls.class_trait_names(**FILTER)),
+               sorted(cls.class_traits(**FILTER)))
         if baseline:
+            self.ctn0[cname] = ctn
             self.class_traits0[cname] = ids
             self.vars0[cname] = vs
             self.cdv0[cname] = cdv
@@ -970,6 +1050,10 @@ class History:
         if set(ids) != set(old) or any(ids[n] is not old[n] for n in ids):
             self.fail("class/class-traits-changed/%s" % op,
                       "%s.class_traits() changed: %r" % (cname, sorted(set(ids) ^ set(old)) or "identities"))
+        if ctn != self.ctn0[cname]:
+            diff = sorted(set(sum(ctn, [])) ^ set(sum(self.ctn0[cname], [])))
+            self.fail("class/class-traits-changed/%s" % op,
+                      "%s.class_trait_names() / filtered class_traits() changed by %r" % (cname, diff))
         if vs != self.vars0[cname]:
             self.fail("class/namespace-changed/%s" % op,
                       "vars(%s) changed by %r" % (cname, sorted(vs ^ self.vars0[cname])))
@@ -995,7 +1079,7 @@ class History:
         rng = self.rng
         ops = (("read", 3), ("mutate", 5), ("assign", 3), ("del", 2), ("otc", 2), ("observe", 2),
                ("unregister", 1), ("add_trait", 2.5), ("remove_trait", 1.2), ("new", 1.5),
-               ("drop", 0.4), ("readall", 0.5))
+               ("drop", 0.4), ("readall", 0.5), ("query", 2.5))
         tot = sum(w for _, w in ops)
         x = rng.random() * tot
         for name, w in ops:
@@ -1059,6 +1143,11 @@ class History:
             A = rng.choice(self.pool)
             if op == "remove_trait" and not A.extras:
                 withx = [r for r in self.pool if r.extras]
+                if withx:
+                    A = rng.choice(withx)
+            if op == "query" and rng.random() < 0.5:
+                # half of the queries go to an instance that carries its own added traits
+                withx = [r for r in self.pool if any(n not in BASE_SPEC for n in r.extras)]
                 if withx:
                     A = rng.choice(withx)
             o = A.obj
@@ -1193,6 +1282,37 @@ class History:
                     first = (reg[1] or "").replace("[]", "").replace(":", ".").replace("?", "").split(".")[0]
                     self.check_counters(A, (first,), epoch=True)
                     sigparts = (op, reg[0], reg[1], detail)
+            elif op == "query":
+                self.op = op
+                q = rng.choice(QUERY_NAMES)
+                own = sorted(n for n in A.extras if n not in BASE_SPEC)
+                if q == "copy" and own:
+                    # copy.copy() re-assigns the state on the new object: for a name that is an
+                    # instance trait of the original this is an assignment to an undeclared name,
+                    # i.e. wildcard-name resolution (cached in the class by design, DESIGN C10/N);
+                    # the state extraction half of the copy is still exercised
+                    q = "getstate"
+                self.trace.append((op, A.serial, q, own))
+                self.guard_counters(A)
+                try:
+                    res = QUERIES[q](o)
+                except Exception as e:
+                    self.fail("op-raised/query/%s/%s" % (q, type(e).__name__),
+                              "%s on #%d raised %r" % (q, A.serial, e))
+                if isinstance(res, HasTraits):
+                    detail = "copy"
+                del res
+                # values may have been read (state, copies): at most one default run per name
+                d0 = self._g[0]
+                for k, v in HUB.dcalls.items():
+                    if k[0] == A.serial and v - d0.get(k, 0) > 1:
+                        self.fail("default-method/ran-more-than-once",
+                                  "_%s_default of #%d ran %d times during %s" % (k[1], A.serial, v - d0.get(k, 0), q),
+                                  name=k[1])
+                ctx.count("query_ops")
+                if own:
+                    ctx.count("query_ops_on_instance_with_added_traits")
+                sigparts = (op, q, bool(own), detail)
             elif op == "add_trait":
                 self.op = op
                 n = rng.choice(ADDABLE)
@@ -1248,7 +1368,7 @@ class History:
             mechs = set()
             for e in HUB.log:
                 mechs.add(e[0])
-                if e[1] != A.serial:
+                if e[1] != A.serial and not (op == "query" and e[1] == -1):
                     self.fail("isolation/foreign-handler-fired/%s/%s" % (op, e[0]),
                               "a step on #%d reached a recorder of #%d: %r" % (A.serial, e[1], e),
                               target=A.serial)
